@@ -97,6 +97,12 @@ LosslessWith(s, r, present(_)) ==
 Lossless(s, r)       == LosslessWith(s, r, PresentRaw)
 LosslessStrict(s, r) == LosslessWith(s, r, PresentNE)
 
+\* KNOWN FAILURE of Lossless (SchemeText; reproduced on the Go code): the scheme is matched with
+\* `| 0x20202020` on the first four bytes, and 0x1a | 0x20 = ':' -- so "sip\x1aa@b" is accepted as a sip: URI
+\* (Scheme = "sip\x1a") and "tel\x1a123" as a tel: URI: the scheme delimiter is not ':'.  ("sips\x1a" is
+\* rejected: that ':' is compared exactly.)  Exception set for LosslessExceptKnown only.
+KnownSubColon(s) == Len(s) >= 4 /\ B(s, 3) = 26
+
 \* Stronger readings of "nothing is ... attributed to the wrong component", kept separate so that
 \* a failure is reported on its own:
 \*  every '@' of an accepted sip:/sips: URI is the user-info delimiter, i.e. lies in no component
@@ -157,15 +163,23 @@ KnownTelPass(r) == Accepted(r) /\ r.uri.type = TELuri /\ r.uri.pass.l > 0
 (***************************************************************************)
 SameBytes(f, g, d) == IF f.l = 0 THEN g.l = 0 ELSE (g.l = f.l /\ g.o = f.o + d)
 
+\* the target span is a span of some buffer: buffers have at most OffsMod - 1 bytes (16 bit offsets)
+SpanInBuffer(offs, len) == 0 <= offs /\ 0 <= len /\ offs + len <= OffsMod - 1
+
 RelocateOk(s, offs, len, a) ==
   LET u == URI_Parse(s).uri IN
-    /\ ~a.panic
-    /\ len >= Len(s) =>
-         /\ a.ok
-         /\ \A k \in 1..7 : SameBytes(Comps(u)[k], Comps(a.uri)[k], offs - u.scheme.o)
-         /\ a.uri.type = u.type /\ a.uri.portno = u.portno
-         \* and the views move along
-         /\ SameBytes(URI_Long(u), URI_Long(a.uri), offs - u.scheme.o)
-         /\ SameBytes(URI_Short(u), URI_Short(a.uri), offs - u.scheme.o)
-    /\ len < Len(s) => (~a.ok /\ a.uri = u)
+    SpanInBuffer(offs, len) =>
+      /\ ~a.panic
+      /\ len >= Len(s) =>
+           /\ a.ok
+           /\ \A k \in 1..7 : SameBytes(Comps(u)[k], Comps(a.uri)[k], offs - u.scheme.o)
+           /\ a.uri.type = u.type /\ a.uri.portno = u.portno
+           \* and the views move along
+           /\ SameBytes(URI_Long(u), URI_Long(a.uri), offs - u.scheme.o)
+           /\ SameBytes(URI_Short(u), URI_Short(a.uri), offs - u.scheme.o)
+      /\ len < Len(s) => (~a.ok /\ a.uri = u)
+
+\* Outside the property's quantifier (a span {offs, len} with offs + len > 65535 is not a span of any buffer):
+\* `end := offs + newpos.Len` wraps and AdjustOffs panics after rewriting the offsets.  Stated for the record.
+RelocateNoPanic(s, offs, len, a) == ~a.panic
 =============================================================================
